@@ -52,7 +52,7 @@ func init() {
 	Register(&Prop{
 		ID:    "C19",
 		Title: "Exporting and re-importing genesis preserves every custom module's state",
-		Cases: func(t string) int { return tierN(t, 20, 300) },
+		Cases: func(t string) int { return tierN(t, 20, 3000) },
 		Run:   runC19,
 		Rule: "case = one generated history (40-90 real signed transactions over 8-30 blocks with random block times; storage/mint parameters drawn per case) followed by export -> ValidateGenesis -> InitChain on a fresh app -> comparison before any block; " +
 			"a state is non-trivial iff the raw KV dump of the source chain holds >= 1 record under each of the 20 record kinds the current code writes " +
